@@ -41,6 +41,8 @@ pub enum Kind {
     /// AllAccounts over a store in which runs of accounts (start, middle, end of the key order) were emptied
     Cw20AccountsEmptied,
     Cw20OwnerAllowances,
+    /// AllAllowances of an owner that never held tokens (no balance record), but granted allowances
+    Cw20OwnerAllowancesNoBalance,
     Cw20SpenderAllowances,
     /// the allowance listings after `migrate` from the pre-0.14 layout (no per-spender index)
     Cw20Migrated { by_spender: bool },
@@ -57,6 +59,9 @@ pub enum Kind {
     Cw1PermissionsAdmins,
     FixedProposals { reverse: bool },
     FixedVotes,
+    /// ListVotes where the proposer is a member of weight 0: its stored Yes ballot has weight 0
+    FixedVotesZeroProposer,
+    FlexVotesZeroProposer,
     FixedVoters,
     FlexProposals { reverse: bool },
     FlexVotes,
@@ -132,6 +137,7 @@ pub fn listings() -> Vec<Listing> {
         l("cw20-base/AllAccounts", Cw20Accounts, "all_accounts", "accounts", None, "start_after", false, false, 0),
         l("cw20-base/AllAccounts[emptied-runs]", Cw20AccountsEmptied, "all_accounts", "accounts", None, "start_after", false, false, 0),
         l("cw20-base/AllAllowances", Cw20OwnerAllowances, "all_allowances", "allowances", Some("spender"), "start_after", false, false, 0),
+        l("cw20-base/AllAllowances[owner-without-balance-record]", Cw20OwnerAllowancesNoBalance, "all_allowances", "allowances", Some("spender"), "start_after", false, false, 0),
         l("cw20-base/AllSpenderAllowances", Cw20SpenderAllowances, "all_spender_allowances", "allowances", Some("owner"), "start_after", false, false, 0),
         l("cw20-base/AllAllowances[after-migration-from-0.13]", Cw20Migrated { by_spender: false }, "all_allowances", "allowances", Some("spender"), "start_after", false, false, 0),
         l("cw20-base/AllSpenderAllowances[after-migration-from-0.13]", Cw20Migrated { by_spender: true }, "all_spender_allowances", "allowances", Some("owner"), "start_after", false, false, 0),
@@ -153,10 +159,12 @@ pub fn listings() -> Vec<Listing> {
         l("cw3-fixed-multisig/ListProposals", FixedProposals { reverse: false }, "list_proposals", "proposals", Some("id"), "start_after", false, false, 0),
         l("cw3-fixed-multisig/ReverseProposals", FixedProposals { reverse: true }, "reverse_proposals", "proposals", Some("id"), "start_before", true, false, 0),
         l("cw3-fixed-multisig/ListVotes", FixedVotes, "list_votes", "votes", Some("voter"), "start_after", false, false, 0),
+        l("cw3-fixed-multisig/ListVotes[zero-weight-proposer]", FixedVotesZeroProposer, "list_votes", "votes", Some("voter"), "start_after", false, false, 0),
         l("cw3-fixed-multisig/ListVoters", FixedVoters, "list_voters", "voters", Some("addr"), "start_after", false, false, 1),
         l("cw3-flex-multisig/ListProposals", FlexProposals { reverse: false }, "list_proposals", "proposals", Some("id"), "start_after", false, false, 0),
         l("cw3-flex-multisig/ReverseProposals", FlexProposals { reverse: true }, "reverse_proposals", "proposals", Some("id"), "start_before", true, false, 0),
         l("cw3-flex-multisig/ListVotes", FlexVotes, "list_votes", "votes", Some("voter"), "start_after", false, false, 0),
+        l("cw3-flex-multisig/ListVotes[zero-weight-proposer]", FlexVotesZeroProposer, "list_votes", "votes", Some("voter"), "start_after", false, false, 0),
         l("cw3-flex-multisig/ListVotes[some-voters-left-the-group]", FlexVotesLeft { all: false }, "list_votes", "votes", Some("voter"), "start_after", false, false, 0),
         l("cw3-flex-multisig/ListVotes[all-voters-left-the-group]", FlexVotesLeft { all: true }, "list_votes", "votes", Some("voter"), "start_after", false, false, 0),
         l("cw3-flex-multisig/ListVoters", FlexVoters, "list_voters", "voters", Some("addr"), "start_after", false, false, 0),
@@ -354,7 +362,8 @@ impl Listing {
         match self.kind {
             Kind::Cw20Accounts => cw20_accounts(n),
             Kind::Cw20AccountsEmptied => cw20_accounts_emptied(n),
-            Kind::Cw20OwnerAllowances => cw20_owner_allowances(n),
+            Kind::Cw20OwnerAllowances => cw20_owner_allowances(n, true),
+            Kind::Cw20OwnerAllowancesNoBalance => cw20_owner_allowances(n, false),
             Kind::Cw20SpenderAllowances => cw20_spender_allowances(n),
             Kind::Cw20Migrated { by_spender } => cw20_migrated(n, by_spender, false),
             Kind::Cw20MigratedLate { by_spender } => cw20_migrated(n, by_spender, true),
@@ -365,9 +374,11 @@ impl Listing {
             Kind::Cw1PermissionsAdmins => cw1_permissions(n, true),
             Kind::FixedProposals { reverse } => proposals(n, false, reverse),
             Kind::FlexProposals { reverse } => proposals(n, true, reverse),
-            Kind::FixedVotes => votes(n, false, None),
-            Kind::FlexVotes => votes(n, true, None),
-            Kind::FlexVotesLeft { all } => votes(n, true, Some(all)),
+            Kind::FixedVotes => votes(n, false, None, 1),
+            Kind::FixedVotesZeroProposer => votes(n, false, None, 0),
+            Kind::FlexVotesZeroProposer => votes(n, true, None, 0),
+            Kind::FlexVotes => votes(n, true, None, 1),
+            Kind::FlexVotesLeft { all } => votes(n, true, Some(all), 1),
             Kind::FixedVoters => fixed_voters(n),
             Kind::FlexVoters => flex_voters(n),
             Kind::GroupMembers => group_members(n),
@@ -488,11 +499,13 @@ fn cw20_expiry(i: usize) -> Value {
 }
 
 /// one owner grants to n spenders; four other owners (sorting on either side) grant to the same spenders
-fn cw20_owner_allowances(n: usize) -> Result<Built, String> {
+fn cw20_owner_allowances(n: usize, owner_funded: bool) -> Result<Built, String> {
     let mut b = B::new();
     let c = a("contract-cw20");
     let owner = a("owner");
-    cw20_instantiate(&mut b, &c, vec![json!({"address": owner, "amount": "1000"})])?;
+    // not funded: the owner never held tokens and has no balance record at all
+    let holder = if owner_funded { owner.clone() } else { a("holder") };
+    cw20_instantiate(&mut b, &c, vec![json!({"address": holder, "amount": "1000"})])?;
     for i in 0..n {
         b.exec(
             &owner,
@@ -1130,12 +1143,12 @@ fn proposals(n: usize, flex: bool, reverse: bool) -> Result<Built, String> {
 }
 
 /// n ballots on one proposal, with ballots on the neighbouring proposals as noise
-fn votes(n: usize, flex: bool, left: Option<bool>) -> Result<Built, String> {
+fn votes(n: usize, flex: bool, left: Option<bool>, proposer_weight: u64) -> Result<Built, String> {
     let mut b = B::new();
     let pp = a("proposer");
     // the target proposal gets the proposer's ballot plus n-1 others; at least 3 others exist for noise
     let others = n.saturating_sub(1).max(3);
-    let mut voters: Vec<(String, u64)> = vec![(pp.clone(), 1)];
+    let mut voters: Vec<(String, u64)> = vec![(pp.clone(), proposer_weight)];
     for i in 0..others {
         voters.push((user(i), (i % 3 + 1) as u64));
     }
@@ -1154,7 +1167,7 @@ fn votes(n: usize, flex: bool, left: Option<bool>) -> Result<Built, String> {
     let target: u64 = if n == 0 { 4 } else { 2 };
     let mut known: Vec<(String, u64, &str)> = vec![];
     if n >= 1 {
-        known.push((pp.clone(), 1, "yes"));
+        known.push((pp.clone(), proposer_weight, "yes"));
         for i in 0..n - 1 {
             let kind = kinds[i % 4];
             b.exec(&user(i), &c, json!({"vote": {"proposal_id": 2, "vote": kind}}))?;
